@@ -204,6 +204,13 @@ static inline LabCase gen_labcase(Rng& rng, int max_rules, bool modules, bool ex
   lc.buffers.push_back(text); lc.buffer_names.push_back("text+plants");
   lc.buffers.push_back(""); lc.buffer_names.push_back("empty");
   lc.buffers.push_back(gen_text_buffer(rng, "", 300)); lc.buffer_names.push_back("text-noplants");
+  // state walker: every substring of up to four bytes of every plant (the atoms of the strings are among them), each
+  // followed by 0xff - the scanner is taken into the automaton states the rule set has and made to look at the far end
+  // of each state's transition window
+  { std::string w; size_t p = 0; while (p < plants.size()) { size_t e = plants.find(" ~ ", p); if (e == std::string::npos) e = plants.size(); std::string pl = plants.substr(p, e - p); p = e + 3;
+      for (size_t i = 0; i < pl.size(); i++) for (size_t l = 1; l <= 4 && i + l <= pl.size(); l++) { w += pl.substr(i, l); w += '\xff'; } }
+    if (w.size() > 60000) w.resize(60000);
+    lc.buffers.push_back(w); lc.buffer_names.push_back("state-walker"); }
   return lc;
 }
 #endif
